@@ -10,9 +10,11 @@
    Oracles: [solve] = scipy.linalg.lstsq(N, rhs, lapack_driver='gelsy')[0]; [acc]/[accv] = teneva.accuracy and the
      validation error (the value -1 when no validation data is given).
    NOT modelled: n_max (dynamic search of the mode size), update_sol, lamb=None, log, info['t'], info['r'],
-     a basis with more functions than the mode size of A0 (zero padding + growing n[k]). *)
+     a basis with more functions than the mode size of A0 (zero padding + growing n[k]); in the default Chebyshev
+     path this means: all mode sizes of A0 equal (as the docstring requires), vector-valued a, b. *)
 From Coq Require Import List Arith Lia PeanoNat Bool.
 From TV Require Import Num.Ops Lin.Tab Lin.BigSum Lin.Solve TT.Chain Model.Als.
+From TV Require Model.Func Model.GridPoi.
 Import ListNotations.
 
 Section AlsFunc.
@@ -90,6 +92,21 @@ Definition als_func (H : list (list (list T))) (y : list T) (A0 : list (core T))
   : result (list (core T) * info (T:=T)) :=
   let stop0 := info_appr K None O (oopp K 1) (accv O A0) nswp e evld in
   gen_loop K acc accv None fstate (fsweep lamb y H) fY fuel nswp e evld (finit_st H y A0) O stop0.
+
+(* ------------------------------------------------------------------ the default entry path (fh=None): Chebyshev basis
+     fh_size = n_max or Y[0].shape[1]
+     fh = [lambda X: teneva.func_basis(teneva.poi_scale(X, a, b, kind='cheb'), fh_size)] * d
+     H = [fhi(x).T for fhi, x in zip(fh, X_trn.T)]
+   Every column x = X_trn[:, k] is a 1-D array of length m; poi_scale treats it as ONE point with m coordinates and
+   broadcasts the scalars a, b, so  Xsc[s] = clip((x[s] - (b + a)/2) * (2/(b - a)), -1, 1)  (Model/GridPoi.scale_cheb,
+   the model of C18) and H[k][s, i] = T_i(Xsc[s]) by the three-term recurrence (Model/Func.func_basis1, the model
+   of C12).  d = X_trn.shape[1] is taken as the number of cores; a, b scalars as in the signature. *)
+Definition cheb_H (a b : T) (n d : nat) (X : list (list T)) : list (list (list T)) :=
+  tab d (fun k => map (fun x => Func.func_basis1 K (GridPoi.scale_cheb K a b (nth k x 0)) n) X).
+Definition als_func_cheb (X : list (list T)) (y : list T) (A0 : list (core T)) (a b : T)
+                         (nswp : option nat) (e evld : option T) (lamb : T) (fuel : nat)
+  : result (list (core T) * info (T:=T)) :=
+  als_func (cheb_H a b (cn (nth O A0 dcore)) (length A0) X) y A0 nswp e evld lamb fuel.
 
 (* ------------------------------------------------------------------ reference semantics and objective *)
 (* value of the functional TT at a sample with basis rows hs (one per mode) *)
